@@ -6,7 +6,7 @@
 From Coq Require Import ZArith List Bool Permutation.
 From QF Require Import Base.Res Base.Bytes Codec.Group Codec.GroupProofs Codec.GroupShipped.
 From QF Require Import Spec.FixStd Codec.TagValue Codec.FieldMap Codec.Build Codec.Parse Codec.ParseProofs Codec.Scan.
-From QF Require Import Codec.GroupMulti.
+From QF Require Import Codec.GroupMulti Codec.GroupMultiNoDict.
 From QF Require Import Dict.Xml Gen.Dicts.Index.
 Import ListNotations.
 Open Scope Z_scope.
@@ -220,3 +220,55 @@ Example c13_ex_two_groups :
               rg_body_has 58 res = true /\ rg_body_has 11 res = true /\
               rg_body_lookup 78 res = Some (4%nat, 11%nat) /\ rg_body_lookup 453 res = Some (15%nat, 8%nat).
 Proof. exact rg_ex2_hyps. Qed.
+
+(* ---- several groups in one body, WITHOUT a dictionary ---- *)
+
+(* Body = seg_1 ++ ... ++ seg_n ++ post as above, parsed by ParseMessage (no dictionary; the same holds when the
+   dictionary does not know the MsgType).  Every wire field becomes a body field of its own; the NumInGroup field of a
+   group is stored as a one-field slice and GetGroup reads on through its capacity (tv[1:cap(tv)] reaches the end of
+   Message.fields).  rg_segs_ok_nodict states the hypotheses of c13_in_message_nodict for every segment: template
+   well-formed, group fits, the first tag behind the group (next plain field, next group's tag, head of post) outside
+   the template tree, the group's tag neither header nor trailer and not occurring again behind its count field
+   (FieldMap.add overwrites), no CheckSum-tagged field up to the end of the group (the scan stops at tag 10).
+   Then EVERY group reads back through its template as the canonical form of the group written, and every field the
+   scan reaches (no CheckSum before it) whose tag is neither a header nor a trailer tag - between the groups, inside
+   them, behind the last one - is in the body. *)
+Theorem c13_in_message_nodict_groups : forall h3 segs post res,
+  length h3 = 3%nat ->
+  rg_segs_ok_nodict segs post ->
+  rg_scan_message [] [] None (h3 ++ rg_segs_wire segs ++ post) = Ok res ->
+  (forall before pre t T g after, segs = before ++ RgSeg pre t T g :: after ->
+     rg_body_get_group (h3 ++ rg_segs_wire segs ++ post) T t res = Ok (rg_canon T g)) /\
+  (forall l1 f l2, rg_segs_wire segs ++ post = l1 ++ f :: l2 -> (forall q, In q l1 -> fst q <> RG_CHECKSUM) ->
+     rg_plain [] [] (fst f) -> rg_body_has (fst f) res = true).
+Proof. exact rg_nodict_message_groups. Qed.
+
+(* the instance "a group followed DIRECTLY by another repeating group", no dictionary, spelled out *)
+Theorem c13_in_message_nodict_two_groups : forall T1 t1 g1 T2 t2 g2 h3 pre post res,
+  length h3 = 3%nat ->
+  rg_wf_template T1 = true -> rg_fits T1 g1 = true ->
+  rg_wf_template T2 = true -> rg_fits T2 g2 = true ->
+  ~ In t2 (rg_all_tags T1) ->
+  (forall f, hd_error post = Some f -> ~ In (fst f) (rg_all_tags T2)) ->
+  rg_plain [] [] t1 -> rg_plain [] [] t2 ->
+  ~ In t1 (map fst (tl (rg_write T1 t1 g1) ++ rg_write T2 t2 g2 ++ post)) ->
+  ~ In t2 (map fst (tl (rg_write T2 t2 g2) ++ post)) ->
+  (forall q, In q (pre ++ rg_write T1 t1 g1 ++ rg_write T2 t2 g2) -> fst q <> RG_CHECKSUM) ->
+  let w := h3 ++ pre ++ rg_write T1 t1 g1 ++ rg_write T2 t2 g2 ++ post in
+  rg_scan_message [] [] None w = Ok res ->
+  rg_body_get_group w T1 t1 res = Ok (rg_canon T1 g1) /\
+  rg_body_get_group w T2 t2 res = Ok (rg_canon T2 g2).
+Proof. exact rg_nodict_message_two_groups. Qed.
+
+(* non-vacuity: the wire of c13_ex_two_groups scanned without dictionary: both groups read back, each stored as a
+   ONE-field slice (length 1) at the index of its count field *)
+Example c13_ex_two_groups_nodict :
+  length rg_ex_h3 = 3%nat /\
+  rg_segs_ok_nodict [RgSeg [(11, [105])] 78 rg_ex_tmpl rg_ex_group; RgSeg [] 453 rg_ex2_tmpl rg_ex2_group]
+                    ([(58, [116])] ++ [(10, [48; 48; 48])]) /\
+  exists res, rg_scan_message [] [] None rg_ex2_wire = Ok res /\
+              rg_body_get_group rg_ex2_wire rg_ex_tmpl 78 res = Ok rg_ex_group /\
+              rg_body_get_group rg_ex2_wire rg_ex2_tmpl 453 res = Ok rg_ex2_group /\
+              rg_body_has 58 res = true /\ rg_body_has 11 res = true /\
+              rg_body_lookup 78 res = Some (4%nat, 1%nat) /\ rg_body_lookup 453 res = Some (15%nat, 1%nat).
+Proof. exact rg_ex2_nodict_hyps. Qed.
